@@ -63,6 +63,13 @@ def run(model: Model, rep: Report) -> None:
             okm = (conds == want or conds == alt) and body_ok
             whym = f"conditions {sorted(conds)}; body `{unparse(ifs[0].body[0]) if ifs[0].body else ''}`"
     r1.check(okm, site(dfs, merge) if merge is not None else site(dfs), dfs.qualname, "a key is taken from the parent iff it is inheritable and absent in the child (nearest ancestor wins)", why=whym)
+    # the merge must happen for every node, before it is passed down or yielded
+    gm = build_cfg(dfs.node, exc_edges=False)
+    domm = gm.dominators()
+    mnode = gm.node_of(merge) if merge is not None else None
+    sinks_m = [n.id for n in gm.nodes if n.ast is not None and n.kind in ("stmt", "for") and any(isinstance(x, (ast.Yield, ast.YieldFrom)) for x in ast.walk(n.ast if n.kind == "stmt" else ast.Module(body=[], type_ignores=[])))]
+    okdom = mnode is not None and bool(sinks_m) and all(mnode in domm.get(s_, set()) for s_ in sinks_m)
+    r1.check(okdom, site(dfs, merge) if merge is not None else site(dfs), dfs.qualname, "the inherited attributes are merged into every node (intermediate /Pages nodes too) before it is descended into or yielded", why="the merge does not dominate the descent: attributes defined above the direct parent are lost")
     # recursion: over Kids in list order, passing the merged dict and the visited set
     rec = [c for c in walk_no_nested(dfs.node) if isinstance(c, ast.Call) and (dotted(c.func) or "") == dfs.name]
     okr = False
